@@ -33,6 +33,7 @@ import (
 	"go.lsp.dev/protocol"
 
 	"github.com/juev/hledger-lsp/internal/analyzer"
+	"github.com/juev/hledger-lsp/internal/ast"
 	"github.com/juev/hledger-lsp/internal/parser"
 	"github.com/juev/hledger-lsp/internal/server"
 )
@@ -58,7 +59,21 @@ func init() {
 		set := toIntSlice(m["set"])
 		return c18ServerCase(c, ws, m["hasRoot"].(bool), [3]bool{set[0] != 0, set[1] != 0, set[2] != 0})
 	}
-	replayers["c18.lower"] = func(c *Ctx, m map[string]any) map[string]any { return c18LowerCase() }
+	replayers["c18.lower"] = func(c *Ctx, m map[string]any) map[string]any {
+		return c18LowerProbes(c18StrList(m["probes"]), nil)
+	}
+	replayers["c18.rule"] = func(c *Ctx, m map[string]any) map[string]any {
+		var txs [][]map[string]any
+		ts, _ := m["txs"].([]any)
+		for _, t := range ts {
+			var ps []map[string]any
+			for _, p := range t.([]any) {
+				ps = append(ps, p.(map[string]any))
+			}
+			txs = append(txs, ps)
+		}
+		return c18RuleCase(c18StrList(m["declAcc"]), c18StrList(m["declCom"]), txs, c18StrList(m["extAcc"]), c18StrList(m["extCom"]))
+	}
 }
 
 func c18Str(v any) string { s, _ := v.(string); return s }
@@ -354,35 +369,187 @@ func c18ServerCase(c *Ctx, ws c18WS, hasRoot bool, set [3]bool) map[string]any {
 		return 0
 	}
 	return map[string]any{"files": files, "edges": edges, "cur": ws.Cur, "hasRoot": hasRoot,
-		"set": []int{b(set[0]), b(set[1]), b(set[2])},
+		"set":     []int{b(set[0]), b(set[1]), b(set[2])},
 		"curTree": c18Reach(len(ws.Files), ws.Edges, ws.Cur), "wsTree": wsTree, "root": root,
 		"impl": c18SortDiags(ds)}
 }
 
-// c18LowerCase lists every non-ASCII rune whose unicode.ToLower is ASCII, and the lower-casing of
-// a few probe strings: the facts the model's `goLower` rests on.
-func c18LowerCase() map[string]any {
+// c18CategoryIndex: which of the six standard categories `isAccountDeclared` finds for the
+// name (0..5 in the order assets, liabilities, equity, expenses, revenues, income), or 6.
+// Computed with the same library calls as the implementation (strings.ToLower, strings.Index).
+func c18CategoryIndex(name string) int {
+	lower := strings.ToLower(name)
+	seg := lower
+	if i := strings.Index(lower, ":"); i >= 0 {
+		seg = lower[:i]
+	}
+	for i, w := range c18Cats {
+		if seg == w {
+			return i
+		}
+	}
+	return 6
+}
+
+var c18LowerAlphabet = []string{"a", "s", "e", "t", "A", "S", "E", "T", "i", "I", "İ", "ı", "n", "N", "c", "C", "o", "O", "m", "M",
+	"K", "k", "É", "é", ":", " ", "\xc4", "\xb0", "\xe2", "\x84", "\xaa", "\xff", "q", "Q", "u", "U", "y", "Y", "ǅ", "1"}
+
+// c18LowerCase lists every non-ASCII rune whose unicode.ToLower is ASCII, and the category found
+// for probe strings (fixed ones plus random strings over an adversarial alphabet, invalid UTF-8
+// included): the facts the model's `goLower` rests on.
+func c18LowerCase(c *Ctx) map[string]any {
 	var rs []int
 	for r := rune(0x80); r <= unicode.MaxRune; r++ {
 		if l := unicode.ToLower(r); l < 0x80 {
 			rs = append(rs, int(r), int(l))
 		}
 	}
-	probes := []string{"ASSETS", "İncome", "LİABİLİTİES:x", "K", "\xc4", "\xe1\xc4\xb0", "Équity", "a:B", "ıncome", "ǅ"}
-	var ps []string
+	probes := []string{"ASSETS", "İncome", "LİABİLİTİES:x", "K", "\xc4", "\xe1\xc4\xb0", "Équity", "a:B", "ıncome", "ǅ",
+		"income", "INCOME:", ":income", "Equity:x:y", "eQUİTY", "", ":", "revenues", "Expenses:a", "expenses "}
+	for i := 0; i < c.N(400, 4000); i++ {
+		var sb strings.Builder
+		if c.R.IntN(2) == 0 {
+			sb.WriteString(c18MixCase(c.R, c18Pick(c.R, c18Cats)))
+		}
+		for k := c.R.IntN(4); k > 0; k-- {
+			sb.WriteString(c18Pick(c.R, c18LowerAlphabet))
+		}
+		if c.R.IntN(3) == 0 {
+			sb.WriteString(c18MixCase(c.R, c18Pick(c.R, c18Cats)))
+		}
+		probes = append(probes, sb.String())
+	}
+	return c18LowerProbes(probes, rs)
+}
+
+func c18LowerProbes(probes []string, rs []int) map[string]any {
+	if rs == nil {
+		for r := rune(0x80); r <= unicode.MaxRune; r++ {
+			if l := unicode.ToLower(r); l < 0x80 {
+				rs = append(rs, int(r), int(l))
+			}
+		}
+	}
+	ps := []string{}
+	cats := []int{}
 	for _, p := range probes {
 		ps = append(ps, hx(p))
+		cats = append(cats, c18CategoryIndex(p))
 	}
-	var outs []string
-	for _, p := range probes {
-		lower := strings.ToLower(p)
-		seg := lower
-		if i := strings.Index(lower, ":"); i >= 0 {
-			seg = lower[:i]
+	return map[string]any{"probes": ps, "impl": J{"runes": rs, "cats": cats}}
+}
+
+// c18RuleCase builds a syntax tree by hand (no parser: account names and symbols are arbitrary
+// byte strings) and runs the real analyzer on it.
+type c18P struct{ Acc, Amt, Cost, Ba *string }
+
+func c18RuleCase(declAcc, declCom []string, txs [][]map[string]any, extAcc, extCom []string) map[string]any {
+	j := &ast.Journal{}
+	line := 1
+	pos := func(l, c int) ast.Position { return ast.Position{Line: l, Column: c, Offset: l*100 + c} }
+	for _, a := range declAcc {
+		j.Directives = append(j.Directives, ast.AccountDirective{Account: ast.Account{Name: a},
+			Subdirs: map[string]string{}, Range: ast.Range{Start: pos(line, 1), End: pos(line+1, 1)}})
+		line++
+	}
+	for _, s := range declCom {
+		j.Directives = append(j.Directives, ast.CommodityDirective{Commodity: ast.Commodity{Symbol: s},
+			Subdirs: map[string]string{}, Range: ast.Range{Start: pos(line, 1), End: pos(line+1, 1)}})
+		line++
+	}
+	amt := func(v any, l, col int) *ast.Amount {
+		if v == nil {
+			return nil
 		}
-		outs = append(outs, hx(seg))
+		sym := unhx(v.(string))
+		return &ast.Amount{Commodity: ast.Commodity{Symbol: sym,
+			Range: ast.Range{Start: pos(l, col), End: pos(l, col+len(sym))}}}
 	}
-	return map[string]any{"probes": ps, "impl": J{"runes": rs, "segs": outs}}
+	for _, ps := range txs {
+		tx := ast.Transaction{Range: ast.Range{Start: pos(line, 1), End: pos(line+len(ps)+1, 1)}}
+		line++
+		for _, p := range ps {
+			post := ast.Posting{Account: ast.Account{Name: unhx(p["acc"].(string))},
+				Range: ast.Range{Start: pos(line, 5), End: pos(line, 60)}}
+			post.Amount = amt(p["amt"], line, 20)
+			if a := amt(p["cost"], line, 30); a != nil {
+				post.Cost = &ast.Cost{Amount: *a}
+			}
+			if a := amt(p["ba"], line, 40); a != nil {
+				post.BalanceAssertion = &ast.BalanceAssertion{Amount: *a}
+			}
+			tx.Postings = append(tx.Postings, post)
+			line++
+		}
+		j.Transactions = append(j.Transactions, tx)
+	}
+	a := analyzer.New()
+	var res *analyzer.AnalysisResult
+	if extAcc == nil && extCom == nil {
+		res = a.Analyze(j)
+	} else {
+		res = a.AnalyzeWithExternalDeclarations(j, analyzer.ExternalDeclarations{
+			Accounts: c18SetOf(extAcc), Commodities: c18SetOf(extCom)})
+	}
+	var ds []c18Diag
+	for _, d := range res.Diagnostics {
+		if c18IsUndeclared(d.Code) {
+			ds = append(ds, c18Diag{d.Code, rngJ(d.Range), d.Message, int(d.Severity)})
+		}
+	}
+	return map[string]any{"declAcc": c18HexList(append([]string{}, declAcc...)), "declCom": c18HexList(append([]string{}, declCom...)),
+		"txs": txs, "extAcc": c18HexList(extAcc), "extCom": c18HexList(extCom),
+		"tree": journalJ(j), "impl": c18SortDiags(ds)}
+}
+
+var c18RuleAtoms = []string{"a", "b", "A", ":", ":", "ab", "a:b", "", "\xff", "é", "assets", "Assets", "İ", " ", "x"}
+
+func c18RuleName(r *rand.Rand) string {
+	var sb strings.Builder
+	for k := r.IntN(5); k > 0; k-- {
+		sb.WriteString(c18Pick(r, c18RuleAtoms))
+	}
+	return sb.String()
+}
+
+func genC18Rule(c *Ctx) map[string]any {
+	r := c.R
+	names := func(n int) []string {
+		out := []string{}
+		for ; n > 0; n-- {
+			out = append(out, c18RuleName(r))
+		}
+		return out
+	}
+	declAcc, declCom := names(r.IntN(3)), names(r.IntN(3))
+	var extAcc, extCom []string
+	if r.IntN(3) != 0 {
+		extAcc, extCom = names(r.IntN(3)), names(r.IntN(3))
+	}
+	pool := append(append(append([]string{}, declAcc...), extAcc...), names(2)...)
+	spool := append(append(append([]string{}, declCom...), extCom...), names(2)...)
+	var txs [][]map[string]any
+	for t := 1 + r.IntN(2); t > 0; t-- {
+		var ps []map[string]any
+		for k := 1 + r.IntN(4); k > 0; k-- {
+			acc := c18Pick(r, pool)
+			switch r.IntN(4) {
+			case 0:
+				acc += ":" + c18RuleName(r)
+			case 1:
+				acc += c18RuleName(r)
+			}
+			p := map[string]any{"acc": hx(acc), "amt": nil, "cost": nil, "ba": nil}
+			for _, k := range []string{"amt", "cost", "ba"} {
+				if r.IntN(2) == 0 {
+					p[k] = hx(c18Pick(r, spool))
+				}
+			}
+			ps = append(ps, p)
+		}
+		txs = append(txs, ps)
+	}
+	return c18RuleCase(declAcc, declCom, txs, extAcc, extCom)
 }
 
 // ---------------------------------------------------------------- generators
@@ -622,12 +789,12 @@ func c18Workspace(c *Ctx) c18WS {
 	// include graph: mostly forests / chains, sometimes arbitrary (cycles allowed)
 	switch g := r.IntN(10); {
 	case n == 1:
-	case g < 3: // no includes at all: siblings
+	case g < 2: // no includes at all: siblings
 	case g < 8: // random DAG along a random order
 		ord := r.Perm(n)
 		for a := 0; a < n; a++ {
 			for b := a + 1; b < n; b++ {
-				if r.IntN(2) == 0 {
+				if r.IntN(3) != 0 {
 					ws.Edges = append(ws.Edges, [2]int{ord[a], ord[b]})
 				}
 			}
@@ -640,6 +807,9 @@ func c18Workspace(c *Ctx) c18WS {
 				}
 			}
 		}
+	}
+	if len(ws.Edges) > 0 && r.IntN(2) == 0 { // prefer a current file that includes something
+		ws.Cur = ws.Edges[r.IntN(len(ws.Edges))][0]
 	}
 	// declarations: a universe for the case, each name placed in one file or nowhere
 	mode := r.IntN(8) // 0: nothing declared anywhere
@@ -726,7 +896,10 @@ func genC18(c *Ctx) {
 	os.Unsetenv("LEDGER_FILE")
 	os.Unsetenv("HLEDGER_JOURNAL")
 	r := c.R
-	c.Emit("c18.lower", c18LowerCase())
+	c.Emit("c18.lower", c18LowerCase(c))
+	for i := 0; i < c.N(1500, 30000); i++ {
+		c.Emit("c18.rule", genC18Rule(c))
+	}
 	// per-journal rule
 	for i := 0; i < c.N(2500, 40000); i++ {
 		var own, ext []string
